@@ -32,6 +32,10 @@ type DOp struct {
 	N    int    `json:"n,omitempty"`
 	// Hostile marks operations that contain attacker-chosen values.
 	Hostile bool `json:"h,omitempty"`
+	// reinit: new configuration (Re false: the configuration of the case)
+	Re bool `json:"re,omitempty"`
+	W2 int  `json:"w2,omitempty"`
+	B2 int  `json:"b2,omitempty"`
 }
 
 // WStep is one step of a writer plan.
@@ -131,6 +135,25 @@ type DRun struct {
 	fail *DFail
 	// owned decides which failed checks stop the run as violations
 	owned map[string]bool
+	// cfg is the configuration of the last Init
+	cfg lz.DecoderConfig
+}
+
+// reinitCfg returns the configuration a reinit operation asks for and the
+// sizes the documentation promises for it.
+func (r *DRun) reinitCfg(op *DOp) (cfg lz.DecoderConfig, w, b int) {
+	cfg = cfgOf(r.dc)
+	if op.Re {
+		cfg = lz.DecoderConfig{WindowSize: op.W2, BufferSize: op.B2}
+	}
+	w, b = cfg.WindowSize, cfg.BufferSize
+	if w == 0 {
+		w = 8 << 20
+	}
+	if b == 0 {
+		b = 2 * w
+	}
+	return cfg, w, b
 }
 
 const (
@@ -484,19 +507,28 @@ func (r *DRun) stepBuffer(i int, op *DOp) {
 		st.Inc("resets")
 	case "reinit":
 		var err error
-		if pv := call(func() { err = b.Init(cfgOf(r.dc)) }); pv != nil {
+		cfg, w2, b2 := r.reinitCfg(op)
+		if pv := call(func() { err = b.Init(cfg) }); pv != nil {
 			r.failf(i, "panic", "panic-Init", "%s", fmtPanic(pv))
 			return
 		}
 		if err != nil {
-			r.failf(i, "unexpected-error", "Init-error", "re-Init returned %v", err)
+			r.failf(i, "unexpected-error", "Init-error", "re-Init with %+v returned %v", cfg, err)
+			return
+		}
+		if b.WindowSize != w2 || b.BufferSize < b2 {
+			r.failf(i, "unexpected-error", "Init-config", "re-Init with %+v on a used buffer gives WindowSize=%d BufferSize=%d; want %d and at least %d", cfg, b.WindowSize, b.BufferSize, w2, b2)
 			return
 		}
 		m.Reset()
 		st.Inc("reinits")
-		if b.BufferSize > r.B {
+		if op.Re {
+			st.Inc("reinits_with_new_geometry")
+		}
+		if b.BufferSize > b2 {
 			st.Inc("reinit_raised_buffersize")
 		}
+		r.W, r.B = w2, b2
 	}
 	if r.fail != nil {
 		return
@@ -798,17 +830,22 @@ func (r *DRun) stepDecoder(i int, op *DOp) {
 		}
 		w2 := &planWriter{fault: w.fault, calls: w.calls, faultsSeen: w.faultsSeen} // the fault plan goes on by writer call index
 		var ierr error
-		if pv := call(func() { ierr = d.Init(w2, cfgOf(r.dc)) }); pv != nil {
+		ncfg, nw, nb := r.reinitCfg(op)
+		if pv := call(func() { ierr = d.Init(w2, ncfg) }); pv != nil {
 			r.failf(i, "panic", "panic-Decoder.Init", "%s", fmtPanic(pv))
 			return
 		}
 		if ierr != nil {
-			r.failf(i, "unexpected-error", "Init-error", "re-Init of a used Decoder returned %v", ierr)
+			r.failf(i, "refused-valid", "Init-error", "re-Init of a used Decoder with the valid configuration %+v returned %v", ncfg, ierr)
 			return
 		}
 		r.w = w2
 		m.Reset()
 		st.Inc("reinits")
+		if op.Re {
+			st.Inc("reinits_with_new_geometry")
+		}
+		r.W, r.B = nw, nb
 	case "reset":
 		// a reset drops unflushed data by design: flush first so that the
 		// exactly-once accounting stays meaningful
@@ -1057,7 +1094,21 @@ func GenDOps(r *rand.Rand, g *DGen) []DOp {
 		case k < 93 && !g.NoReset:
 			ops = append(ops, DOp{K: "reset"})
 		case k < 95 && !g.NoReset:
-			ops = append(ops, DOp{K: "reinit"})
+			op := DOp{K: "reinit"}
+			if r.Intn(2) == 0 {
+				// a new valid geometry, often with the default buffer size
+				op.Re = true
+				op.W2 = 1 + r.Intn(2*g.B+2)
+				switch r.Intn(4) {
+				case 0, 1:
+					op.B2 = 0
+				case 2:
+					op.B2 = op.W2 + 1 + r.Intn(op.W2+2)
+				default:
+					op.B2 = op.W2 + 1
+				}
+			}
+			ops = append(ops, op)
 		default:
 			ops = append(ops, DOp{K: "write", Data: genLits(r, g.size(r))})
 		}
